@@ -633,6 +633,21 @@ def rich_scalar(rng, kind=None):
     return M.gen_scalar(rng, kind, rich=True)
 
 
+def whole_seconds(a):
+    """a with every date cut to the whole second (container histories are stepped by the model at
+    its finest resolution; whether two dates inside one second are equal is not C06's to say)"""
+    if a["k"] == "date":
+        return M.mk("date", s=a["s"][:6] + [0])
+    if a["k"] in ("list", "set", "map"):
+        b = dict(a, items=[whole_seconds(x) for x in a["items"]], vals=[whole_seconds(x) for x in a["vals"]])
+        if a["k"] != "list":
+            cs = [M.canon(x) for x in b["items"]]
+            if len(set(cs)) != len(cs):
+                return M.a_null()
+        return b
+    return a
+
+
 def path_expr(path):
     """the program text that denotes the part of `hw` addressed by the path"""
     t = "hw"
@@ -840,6 +855,8 @@ def random_edit(rng, cur):
     e = M.gen_value(rng, rng.choice([0, 0, 0, 1]), elem=rich_scalar)
     if rng.random() < 0.3 and t["items"]:
         e = M.equal_variant(rng, rng.choice(t["items"]))
+    if not M.evaluable(e):          # the edit is a program: its operands must have a program form
+        e = whole_seconds(e)
     nul = M.a_null()
     if k == "list":
         c = rng.choice(["setat", "setat", "append", "insertat", "deleteat", "remove"])
@@ -860,6 +877,8 @@ def random_edit(rng, cur):
         if n and rng.random() < 0.3:
             return path, {"name": "remove", "i": 0, "e": M.equal_variant(rng, rng.choice(t["items"])), "x": nul}
         x = M.gen_value(rng, rng.choice([0, 0, 1]), elem=rich_scalar)
+        if not M.evaluable(x):
+            x = whole_seconds(x)
         return path, {"name": "put", "i": 0, "e": e, "x": x}
     if k == "str" and t["s"]:
         return path, {"name": "setchar", "i": rng.randint(1, len(t["s"])), "e": M.a_str(rng.choice(M.ALPHA_RICH)),
@@ -993,12 +1012,12 @@ def binding_b(cx, rng, npairs, ntraces, nhist=0):
                 events.append(e)
                 meta.append(f"{lit_key(a)} ~ {lit_key(b)} ~ {lit_key(c)}")
         cx.n_eval += 1
-    pool = [M.gen_value(rng, 1, elem=rich_scalar) for _ in range(6)] + [
+    pool = [whole_seconds(M.gen_value(rng, 1, elem=rich_scalar)) for _ in range(6)] + [
         M.a_int(1), M.a_dec(1.0), M.a_dec(0.0), M.a_dec(-0.0), M.a_int(2 ** 53), M.a_dec(2.0 ** 53),
         M.a_int(2 ** 53 + 1), M.a_dec(0.3, True), M.a_dec(0.1 + 0.2, True),
-        M.mk("date", s=[2024, 1, 1, 0, 0, 0, 0]), M.mk("date", s=[2024, 1, 1, 0, 0, 0, 444000])]
+        M.mk("date", s=[999, 12, 31, 23, 59, 59, 0]), M.mk("date", s=[999, 12, 31, 23, 59, 58, 0])]
     for _ in range(ntraces):
-        pl = pool + [M.gen_value(rng, 2, elem=rich_scalar) for _ in range(3)]
+        pl = pool + [whole_seconds(M.gen_value(rng, 2, elem=rich_scalar)) for _ in range(3)]
         cont_trace(cx, rng, events, meta, pl)
     bad = M.validate(cx.run, events, "Val_Trace validation of recorded relations, container histories and "
                                      "objects edited in place")
